@@ -149,11 +149,26 @@ def viol_lines(out):
     return res
 
 
+def c08_viols(tier, wd, prop):
+    """Forged-key verdicts for another property's check (C09: a forged key must be refused):
+    every UskMac violation except the recorded re-framing finding."""
+    sub = os.path.join(wd, "uskmac")
+    os.makedirs(sub, exist_ok=True)
+    viols, cov = c08_core(tier, sub)
+    out = [dict(v, p=[prop], hist=0, line=0) for v in viols if v["cause"] != "unframed"]
+    return out, {"forged_key_offers": cov["evaluations"], "forged_key_kinds": cov["kinds"]}
+
+
 def c08(tier):
     t0 = time.time()
     prop = "C08"
     wd = workdir(prop)
     build_harness("default")
+    viols, cov = c08_core(tier, wd)
+    return finish(prop, tier, t0, viols, cov)
+
+
+def c08_core(tier, wd):
     cfg = os.path.join(wd, "UskMac.cfg")
     write_cfg(cfg, {"WSK": 2, "WDK": 3})
     g = run_module("UskMac.tla", cfg, wd, "gen")
@@ -198,7 +213,7 @@ def c08(tier):
         "model_drift": len(drift),
         "states": max(1, c["distinct"]), "transitions": max(1, c["generated"]),
     }
-    return finish(prop, tier, t0, viols, cov)
+    return viols, cov
 
 
 # ------------------------------------------------------------------ C07
